@@ -761,7 +761,7 @@ def spelled_out(argv: list[str]) -> list[str]:
 
 
 def run_case(env: Env, case: dict[str, Any], want_trace: bool = False) -> dict[str, Any]:
-    scratch = tempfile.mkdtemp(prefix="dst-c15-", dir=SCRATCH_BASE)
+    scratch = tempfile.mkdtemp(prefix="dst-c15-" + os.environ.get("VERIF_RUN_TAG", "x") + "-", dir=SCRATCH_BASE)
     try:
         return _run_case(case, scratch, want_trace)
     finally:
